@@ -824,6 +824,10 @@ pub fn add_bank_with(w: &mut World, spec: &BankSpec, seed: &ReserveSeed) -> Resu
     // the init deposit marks the reserve stale (flag); the world starts with a refreshed reserve
     w.banks.push(info);
     refresh_direct(w, i);
+    if spec.emode_tag != 0 || !spec.emode_entries.is_empty() {
+        let ix = w.ix_config_emode(i, spec.emode_tag, &spec.emode_entries, w.roles.emode);
+        w.vm.exec(&ix).map_err(|e| format!("emode solend bank {i}: {e:?}"))?;
+    }
     // a token account per existing user
     let user_tokens = w.spec.user_tokens;
     for u in 0..w.users.len() {
